@@ -382,6 +382,11 @@ func provenanceOutside(v ssa.Value, root ssa.Value, allowed map[string]bool) str
 				return
 			}
 			bad = "; found call of " + n
+		case *ssa.Const:
+			// a nil slice carries no bytes of its own (the converters reject it)
+			if !x.IsNil() {
+				bad = "; found " + core.Describe(v)
+			}
 		default:
 			bad = "; found " + core.Describe(v)
 		}
@@ -410,33 +415,56 @@ func c12Delegates(c *Ctx, f *ssa.Function, target string) {
 				c.check(okArg, "C12.delegation", f, "return "+shortCallee(target)+"(...)", ret, "the NoMapped variant delegates to the checked converter with its own argument")
 				// the family: IPv4 exactly when To4() of the argument's IP is non-nil
 				// (To4 also recognises the 16-byte ::ffff:a.b.c.d form; netip.AddrFromSlice does not unmap)
-				fam, isK := core.ConstInt(cl.Call.Args[1])
-				v4, found := false, false
-				for _, g := range core.GuardsOf(cl) {
-					cond, truth := core.StripNot(g.Cond, g.Truth)
-					b, isB := cond.(*ssa.BinOp)
-					if !isB || !core.IsNilConst(b.Y) || (b.Op != token.NEQ && b.Op != token.EQL) {
-						continue
+				// evaluated per value that may arrive (phi edges carry their own facts)
+				isK, found, famOK := true, true, true
+				to4Fact := func(facts []core.Fact) (v4, ok bool) {
+					for _, g := range facts {
+						cond, truth := core.StripNot(g.Cond, g.Truth)
+						b, isB := cond.(*ssa.BinOp)
+						if !isB || (b.Op != token.NEQ && b.Op != token.EQL) {
+							continue
+						}
+						x := b.X
+						if core.IsNilConst(b.X) {
+							x = b.Y
+						} else if !core.IsNilConst(b.Y) {
+							continue
+						}
+						t4, isC := x.(*ssa.Call)
+						if !isC || core.CalleeName(&t4.Call) != "(net.IP).To4" {
+							continue
+						}
+						src := t4.Call.Args[0]
+						if fn, base, isLd := core.IsLoadOfField(src); isLd && fn == "IP" {
+							src = base
+						}
+						if src != ssa.Value(f.Params[0]) {
+							continue
+						}
+						return (b.Op == token.NEQ) == truth, true
 					}
-					t4, isC := b.X.(*ssa.Call)
-					if !isC || core.CalleeName(&t4.Call) != "(net.IP).To4" {
-						continue
-					}
-					src := t4.Call.Args[0]
-					if fn, base, isLd := core.IsLoadOfField(src); isLd && fn == "IP" {
-						src = base
-					}
-					if src != ssa.Value(f.Params[0]) {
-						continue
-					}
-					found = true
-					v4 = (b.Op == token.NEQ) == truth
+					return false, false
 				}
-				want := int64(2)
-				if v4 {
-					want = 1
+				for _, lf := range core.Facts(f).Leaves(cl.Call.Args[1], cl) {
+					fam, k := core.ConstInt(lf.V)
+					if !k {
+						isK = false
+						continue
+					}
+					v4, ok := to4Fact(lf.Facts)
+					if !ok {
+						found = false
+						continue
+					}
+					want := int64(2)
+					if v4 {
+						want = 1
+					}
+					if fam != want {
+						famOK = false
+					}
 				}
-				c.check(isK && found && fam == want, "C12.delegation", f, "family passed to "+shortCallee(target)+" is IPv4 exactly under To4() != nil", cl,
+				c.check(isK && found && famOK, "C12.delegation", f, "family passed to "+shortCallee(target)+" is IPv4 exactly under To4() != nil", cl,
 					"an IPv4-mapped 16-byte net.IP is an IPv4 address for the NoMapped variants; any other family test (AddrFromSlice+Is4, len == 4) treats it as IPv6")
 				return
 			}
